@@ -153,6 +153,31 @@ def dead_reckoning(chk, prog):
            module=f.module.rel, function=f.qname, construct="null-accelerometer step", line=f.node.lineno)
 
 
+def dead_reckoning_marg(chk, prog):
+    """the MARG entry points with a null accelerometer sample and a valid magnetometer sample: still the plain first-order step (no correction can be
+    computed without gravity), in each filter's convention"""
+    w = sym_vec("w", 3)
+    m = sym_vec("mm", 3)
+    q = unit_syms("uq")
+    dt = P.sym("dt")
+    zero3 = np.array([P.ZERO] * 3, dtype=object)
+    step = normalized(q + hamilton_ref(q, pure(w)) * dt / 2)
+    step_c = normalized(q + hamilton_ref(pure(-w), q) * dt / 2)
+    for key, cls, attrs, want in (("madgwick.py::Madgwick.updateMARG", "Madgwick", {"gain": P.sym("gain")}, step),
+                                  ("mahony.py::Mahony.updateMARG", "Mahony", {"b": sym_vec("bias", 3), "k_P": P.sym("kP"), "k_I": P.sym("kI")}, step),
+                                  ("aqua.py::AQUA.updateMARG", "AQUA", {"alpha": P.sym("alpha"), "beta": P.sym("beta"), "threshold": P.sym("thr"), "adaptive": False}, step_c)):
+        f = prog.func(F + key)
+        chk.touch(f)
+
+        def law(f=f, cls=cls, attrs=attrs, key=key, want=want):
+            it = Interp(prog)
+            obj = it.make_obj(F + key.split("::")[0] + "::" + cls, Dt=P.sym("Dt_instance"), **attrs)
+            got = it.run(f, [q, w, zero3, m], {"dt": dt}, self_obj=obj)
+            return eq(got, want, "null-accelerometer MARG step")
+        chk.ob("STEP.null-acc", F + key, "null accelerometer, valid magnetometer: the plain first-order gyro step (no magnetometer-only correction)", law,
+               module=f.module.rel, function=f.qname, construct="null-accelerometer step (MARG)", line=f.node.lineno)
+
+
 def angvel(chk, prog):
     f = prog.func(QUAT + "::QuaternionArray.angular_velocities")
     chk.touch(f)
@@ -230,6 +255,7 @@ def run(chk, prog, tier):
     omega_sites(chk, prog)
     angular_rate(chk, prog, range(0, 6) if tier == "thorough" else range(0, 4))
     dead_reckoning(chk, prog)
+    dead_reckoning_marg(chk, prog)
     angvel(chk, prog)
     # the constructor route reaches the same integrator with the requested method and order (same rule as C06's PROTOCOL)
     from props.c06 import protocol
